@@ -247,9 +247,116 @@ fn concurrent_phase(env: &Env, st: &mut Stats) {
     });
     st.evaluations += total.load(std::sync::atomic::Ordering::Relaxed);
     st.add("concurrent_calls", total.load(std::sync::atomic::Ordering::Relaxed));
+    // concurrent directory analyses: 16 threads, each on its own copy of a tree nested 6 levels deep
+    {
+        let mut level: Vec<Entry> = vec![Entry { name: "Leaf.sol".into(), kind: Kind::File(files[0].clone().into_bytes()), class: "eligible" }];
+        for d in 0..6 {
+            level = vec![
+                Entry { name: format!("L{d}.sol"), kind: Kind::File(files[(d + 1) % files.len()].clone().into_bytes()), class: "eligible" },
+                Entry { name: format!("d{d}"), kind: Kind::Dir(level), class: "directory" },
+            ];
+        }
+        let sc = Scratch::new("c15conc");
+        let seq_root = sc.path.join("seq");
+        std::fs::create_dir_all(&seq_root).unwrap();
+        tree::materialize(&level, &seq_root);
+        if let Ok(expected) = c03::analyze_dir_all(&seq_root, &pats) {
+            let rounds = env.tier.n(12, 120) as usize;
+            let bad: std::sync::Mutex<Vec<Violation>> = std::sync::Mutex::new(Vec::new());
+            let done = std::sync::atomic::AtomicU64::new(0);
+            std::thread::scope(|s| {
+                for th in 0..16usize {
+                    let level = &level;
+                    let pats = &pats;
+                    let expected = &expected;
+                    let bad = &bad;
+                    let done = &done;
+                    let root = sc.path.join(format!("t{th}"));
+                    s.spawn(move || {
+                        std::fs::create_dir_all(&root).unwrap();
+                        tree::materialize(level, &root);
+                        for _ in 0..rounds {
+                            let got = c03::analyze_dir_all(&root, pats);
+                            done.fetch_add(1, std::sync::atomic::Ordering::Relaxed);
+                            if got.as_ref().ok() != Some(expected) {
+                                bad.lock().unwrap().push(Violation::new("concurrent", "concurrent-directory-analysis-differs", format!("analyze_dir from thread {th} differs from the sequential result on the same tree ({} vs {} entries)", got.map(|g| g.len()).unwrap_or(0), expected.len()), json!({"threads": 16, "nesting": 6})));
+                                return;
+                            }
+                        }
+                    });
+                }
+            });
+            let n = done.load(std::sync::atomic::Ordering::Relaxed);
+            st.evaluations += n;
+            st.add("concurrent_directory_analyses", n);
+            let vs = bad.into_inner().unwrap();
+            let vs = filter_known(env, st, vs);
+            st.violations.extend(vs.into_iter().take(1));
+        }
+    }
     let vs = results.into_inner().unwrap();
     let vs = filter_known(env, st, vs);
     st.violations.extend(vs.into_iter().take(2));
+}
+
+/// A very deep file (1 200 nested blocks and parentheses) analysed in between: whatever such an
+/// input leaves behind (counters, caches, guards) must not change the verdicts on the files that follow.
+fn deep_phase(env: &Env, st: &mut Stats) {
+    let bytes: Vec<u8> = (0..400u64).map(|i| (fnv(&(env.seed, 77u8, i)) >> 9) as u8).collect();
+    let mut t = Tape::new(&bytes);
+    let (files, _) = pool(&mut t);
+    let pats = patterns::all();
+    let base = match baseline(&files, &pats) {
+        Ok(b) => b,
+        Err(_) => return,
+    };
+    let n = 1100;
+    // deep and bushy: every one of the 1 100 nesting levels holds 32 statements besides the nested block,
+    // and the innermost expression is wrapped in 1 200 parentheses
+    let mut deep = String::from("pragma solidity 0.8.17 ;\ncontract Deep { uint256 s ; function f ( ) public { ");
+    for _ in 0..n {
+        deep.push_str("{ ");
+        deep.push_str(&"i ++ ; ".repeat(32));
+    }
+    deep.push_str(&format!("s = {} a >= b {} ; ", "( ".repeat(n), ") ".repeat(n)));
+    deep.push_str(&"} ".repeat(n));
+    deep.push_str("} }\n");
+    let rounds = env.tier.n(1, 4) as usize;
+    let handle = std::thread::Builder::new().stack_size(1 << 30).spawn(move || {
+        let mut out: Vec<Violation> = Vec::new();
+        let mut evals = 0u64;
+        for (k, p) in pats.iter().enumerate() {
+            if k % 6 != 0 || k / 6 >= rounds {
+                continue;
+            }
+            // all detectors see the deep file, then the ordinary files are re-checked
+            for q in pats.iter() {
+                let _ = catch(|| q.analyze(&deep, 0));
+                evals += 1;
+            }
+            for (fi, f) in files.iter().enumerate() {
+                for (pi, q) in pats.iter().enumerate() {
+                    evals += 1;
+                    match catch(|| q.analyze(f, 0)) {
+                        Ok(g) if g == base[fi][pi] => {}
+                        other => {
+                            out.push(Violation::new("deep-file-in-between", format!("verdict-changes-after-deep-file:{}", q.name), format!("{} on file {} gives {:?} after a 1200-level deep file was analysed with {}, {:?} before", q.name, fi, other, p.name, base[fi][pi]), json!({"files": files})));
+                            return (out, evals);
+                        }
+                    }
+                }
+            }
+        }
+        (out, evals)
+    });
+    if let Ok(h) = handle {
+        if let Ok((vs, evals)) = h.join() {
+            st.evaluations += evals;
+            st.add("calls_after_a_very_deep_file", evals);
+            let vs = filter_known(env, st, vs);
+            st.violations.extend(vs);
+        }
+    }
 }
 
 pub fn replay(env: &Env, _check: &str, case: &Value, st: &mut Stats) -> Vec<Violation> {
@@ -286,8 +393,14 @@ pub fn run(env: &Env) -> i32 {
         }
         st.violations.extend(vs);
     }
-    tape_stream(env, &mut st, "histories", env.tier.n(3000, 40_000), 900, |tape, s| history_case(tape, s));
-    concurrent_phase(env, &mut st);
+    let mut deep_stats = Stats::default();
+    std::thread::scope(|sc| {
+        let h = sc.spawn(|| deep_phase(env, &mut deep_stats));
+        tape_stream(env, &mut st, "histories", env.tier.n(3000, 40_000), 900, |tape, s| history_case(tape, s));
+        concurrent_phase(env, &mut st);
+        let _ = h.join();
+    });
+    st.merge(deep_stats);
     let meta = Meta {
         rule: "cases = histories of 3-14 library operations over a pool of files that share state-variable names and differ in solidity version and SafeMath usage: per-file analyses with arbitrary file numbers and repetitions, directory analyses with the file among varying siblings, positions, sub-directories and pattern selections/orders; oracle = every (file, pattern) result inside the history equals the baseline of a single call; plus 16 threads x N concurrent calls compared with the sequential baseline; non-trivial = at least 3 different files and at least one repetition in the history".into(),
         assumptions: vec!["thread schedules are not owned by the harness: the concurrent phase is stress only (DESIGN section 5 C15)".into()],
